@@ -209,6 +209,11 @@ def _run(case, cfg, w):
             cb_log.append((tag, list(args)))
         return cb
 
+    def ack_payload(tag):
+        # acknowledgements with no, one falsy, one or several arguments
+        n = int(tag[1:])
+        return [[tag, {'k': 1}], [], [None], [0], [tag], [False, '']][n % 6]
+
     mark_all = sc.mark()
     for opi, op in enumerate(case['ops']):
         k = op[0]
@@ -316,8 +321,9 @@ def _run(case, cfg, w):
             if lst and sc.alive(p):
                 ns, id_, tag = lst.pop(0)
                 if sc.sid(p, ns) == cb_issued[tag]['sid']:
-                    sc.peers[p].send_pkt(sio.ACK, ns, id_, [tag, {'k': 1}])
-                    cb_expected[tag] = [tag, {'k': 1}]
+                    pay = ack_payload(tag)
+                    sc.peers[p].send_pkt(sio.ACK, ns, id_, pay)
+                    cb_expected[tag] = pay
         elif k == 'adv':
             w.advance(op[1])
         if immediate:
@@ -357,8 +363,9 @@ def _run(case, cfg, w):
         while lst and sc.alive(p):
             ns, id_, tag = lst.pop(0)
             if sc.sid(p, ns) == cb_issued[tag]['sid']:
-                sc.peers[p].send_pkt(sio.ACK, ns, id_, [tag, {'k': 1}])
-                cb_expected[tag] = [tag, {'k': 1}]
+                pay = ack_payload(tag)
+                sc.peers[p].send_pkt(sio.ACK, ns, id_, pay)
+                cb_expected[tag] = pay
     drain()
     flights_update()
     # lagged regime: who was addressed at some instant of the flight (from
